@@ -36,3 +36,75 @@ Proof. vm_compute. split; reflexivity. Qed.
 
 Print Assumptions session_streams_are_per_connection.
 Print Assumptions session_without_reset_refuted.
+
+(* ---- Close affects the connection it was called on, and only that one ---- *)
+Lemma set_closed_length : forall k l, length (set_closed k l) = length l.
+Proof. induction k as [|k IH]; intros [|b l]; cbn; auto. Qed.
+
+Lemma set_closed_other : forall k j l, j <> k -> nth j (set_closed k l) false = nth j l false.
+Proof.
+  induction k as [|k IH]; intros j [|b l] H; cbn; auto.
+  - destruct j; [contradiction|reflexivity].
+  - destruct j; [reflexivity|]. apply IH. intros ->. apply H. reflexivity.
+Qed.
+
+Lemma set_closed_same : forall k l, nth k (set_closed k l) false = false.
+Proof. induction k as [|k IH]; intros [|b l]; cbn; auto. Qed.
+
+Lemma set_closed_idem : forall k l, set_closed k (set_closed k l) = set_closed k l.
+Proof. induction k as [|k IH]; intros [|b l]; cbn; auto. f_equal. apply IH. Qed.
+
+Theorem close_twice_is_close_once : forall st k,
+  cstep false (cstep false st (CClose k)) (CClose k) = cstep false st (CClose k).
+Proof.
+  intros st k. cbn [cstep]. destruct (Nat.ltb k (length st)) eqn:E.
+  - rewrite set_closed_length, E. apply set_closed_idem.
+  - rewrite E. reflexivity.
+Qed.
+
+Theorem close_closes_its_own : forall st k, (k < length st)%nat -> nth k (cstep false st (CClose k)) false = false.
+Proof.
+  intros st k H. cbn [cstep]. apply Nat.ltb_lt in H. rewrite H. apply set_closed_same.
+Qed.
+
+Lemma stays_open_gen : forall j evs st,
+  ~ In (CClose j) evs -> (j < length st + handshakes evs)%nat ->
+  ((j < length st)%nat -> nth j st false = true) ->
+  nth j (crun false st evs) false = true.
+Proof.
+  intros j evs. induction evs as [|ev evs IH]; intros st Hn Hlt Hopen.
+  - cbn in *. apply Hopen. lia.
+  - cbn [crun fold_left]. change (fold_left (cstep false) evs (cstep false st ev)) with (crun false (cstep false st ev) evs).
+    apply IH.
+    + intros H. apply Hn. right. exact H.
+    + destruct ev as [|k]; cbn [cstep handshakes] in *.
+      * rewrite app_length. cbn. lia.
+      * destruct (Nat.ltb k (length st)); [rewrite set_closed_length|]; lia.
+    + destruct ev as [|k]; cbn [cstep].
+      * rewrite app_length. cbn. intros Hj.
+        destruct (Nat.lt_ge_cases j (length st)) as [Hl|Hl].
+        -- rewrite app_nth1 by assumption. apply Hopen. assumption.
+        -- assert (j = length st) by lia. subst j. rewrite app_nth2 by lia. rewrite Nat.sub_diag. reflexivity.
+      * assert (Hk : j <> k) by (intros ->; apply Hn; left; reflexivity).
+        destruct (Nat.ltb k (length st)).
+        -- rewrite set_closed_length. intros Hj. rewrite set_closed_other by assumption. apply Hopen. assumption.
+        -- assumption.
+Qed.
+
+(* every connection of a session stays open until ITS OWN handle is closed, whatever is done with the handles of
+   the other connections, in any order and any number of times *)
+Theorem connection_open_until_its_own_close : forall evs j,
+  (j < handshakes evs)%nat -> ~ In (CClose j) evs -> nth j (crun false [] evs) false = true.
+Proof.
+  intros evs j Hj Hn. apply stays_open_gen; [assumption | cbn; lia | cbn; lia].
+Qed.
+
+(* with the one shared object as every handle, a second Close of connection 0 closes connection 1 *)
+Theorem shared_close_refuted :
+  ~ In (CClose 1) [CHandshake; CClose 0; CHandshake; CClose 0] /\
+  nth 1 (crun true [] [CHandshake; CClose 0; CHandshake; CClose 0]) false = false /\
+  nth 1 (crun false [] [CHandshake; CClose 0; CHandshake; CClose 0]) false = true.
+Proof.
+  split; [|split; reflexivity].
+  intros [H|[H|[H|[H|[]]]]]; discriminate.
+Qed.
